@@ -23,6 +23,7 @@ import warnings
 from typing import Any
 from urllib.parse import quote_plus
 
+from mc import c09_extra
 from mc.runner import Result, digest
 
 ID = "C09"
@@ -40,13 +41,28 @@ RULE = (
     "character of a 16-character alphabet at a position in {alone, a+c, c+a, a+c+a} (thorough: also every ordered pair of two "
     "distinct special characters) x method in {GET, POST, PUT} (bodies: POST, PUT) x scheme {http; https+verify=False slice} x "
     "sanitisation {off; on slice}; distinct = distinct (part, string, method, scheme, sanitise) tuples; a case is non-trivial "
-    "when the original request reached the wire and the curl command was executed and judged"
+    "when the original request reached the wire and the curl command was executed and judged. "
+    "Review round 2 adds: (6) methods DELETE, PATCH (with and without payload), HEAD, OPTIONS, TRACE x every part x a 4-character slice; "
+    "(7) the place the command is read from: the text of the FailureGroup raised by Case.call_and_validate on a 500 answer (every part x "
+    "every character, alone) and Case.as_curl_command() without arguments (6-character slice); (8) request shapes of mc/c09_extra.py - two/three "
+    "headers, cookies, query parameters, form fields, JSON keys at once in both writing orders, list values (repeated names) incl. the empty "
+    "list; header names in three spellings for names requests sets by default (User-Agent, Accept, Accept-Encoding, Connection), Content-Type "
+    "next to a payload, Authorization, each carried by the case or given per call (headers=, auth=, cookies=); payload types str / bytes / "
+    "dict / list / number / bool per media type, empty containers, falsy JSON, serialised bytes, media type without payload - each shape x the "
+    "three places the command is read from; (9) engine scenarios: configured headers (own name / a default name of requests), an operation "
+    "with a payload, the coverage phase, the stateful phase (a link followed, ignored_auth deriving a case inside it)"
 )
 BOUNDS = {
     "quick": {"characters": 16, "positions": 4, "methods": 3, "character_pairs": False, "https_slice": "3 characters, alone, POST",
-              "sanitize_slice": "all characters, alone, POST"},
+              "sanitize_slice": "all characters, alone, POST",
+              "other_methods": "DELETE PATCH HEAD OPTIONS TRACE x all parts x 4 characters, alone",
+              "entry_points": "failure message: all parts x all characters, alone; as_curl_command(): 6 characters, alone",
+              "shapes": "all shapes of mc/c09_extra.py x 3 entry points (+ sanitisation on for the header-name shapes)", "engine_scenarios": 12},
     "thorough": {"characters": 16, "positions": 4, "methods": 3, "character_pairs": "all ordered pairs of 14 special characters x 4 positions x all methods",
-                 "https_slice": "all characters x 4 positions, POST", "sanitize_slice": "all characters x 4 positions, POST"},
+                 "https_slice": "all characters x 4 positions, POST", "sanitize_slice": "all characters x 4 positions, POST",
+                 "other_methods": "DELETE PATCH HEAD OPTIONS TRACE x all parts x all characters, alone",
+                 "entry_points": "failure message and as_curl_command(): all parts x all characters x 4 positions",
+                 "shapes": "as quick", "engine_scenarios": 12},
 }
 BUDGET_S = {"quick": 120, "thorough": 1800}
 CHUNK = 8
@@ -64,6 +80,10 @@ ASSUMPTIONS = [
     "http.client lets through as obs-fold): the property speaks of header values, a folded line is left undecided "
     "(observation: Case.as_curl_command raises InvalidHeader for it instead of printing a command)",
     "curl 7.88.1 and dash as installed in the sandbox are the environment; cwd=/ and an empty HOME (no ~/.curlrc), stdin closed",
+    "a header that the caller wrote down - in the case, in call(headers=...) or in the run configuration - is not 'added by curl / requests on "
+    "their own', whatever its name; headers and cookies given per call belong to the original request (the command is built from "
+    "response.request.headers); call(params=...) is not enumerated (the transport ignores it)",
+    "the command in a failure message is the text after 'Reproduce with: \\n\\n    ' up to the end of the message",
     "with sanitisation on only names that the sanitiser documents as sensitive (here: Authorization, Cookie) may differ, and only by "
     "being replaced with [Filtered]",
 ]
@@ -97,6 +117,18 @@ ASCII_ONLY_PARTS = {"header", "header_accept", "cookie"}
 MEDIA = {"text": "text/plain", "json": "application/json", "form": "application/x-www-form-urlencoded", "multipart": "multipart/form-data"}
 
 
+# review round 2 ---------------------------------------------------------------------------------------------------------
+# methods beyond GET/POST/PUT ("any method"): with a payload where the method may carry one, without where it may not
+EXTRA_METHODS = ["DELETE", "PATCH", "HEAD", "OPTIONS", "TRACE"]
+EXTRA_BODY_METHODS = ["DELETE", "PATCH"]
+METHOD_SLICE_CHARS = ["squote", "space", "hash", "empty"]
+# where the command is read from: the expression of Case.validate_response evaluated by the harness (round 1), the text of the
+# failure raised by Case.call_and_validate ("Reproduce with:" block of format_failures), Case.as_curl_command() without arguments
+ENTRIES = ["response_headers", "failure_message", "bare"]
+BARE_SLICE_CHARS = ["a", "squote", "space", "at", "percent", "empty"]
+REPRODUCE_MARKER = "Reproduce with: \n\n    "
+
+
 def build_value(char: str, pos: str, second: str | None = None) -> str:
     c = CHAR[char] + (CHAR[second] if second else "")
     return {"alone": c, "a+c": "a" + c, "c+a": c + "a", "a+c+a": "a" + c + "a"}[pos]
@@ -110,17 +142,20 @@ def items(tier: str, seed: int) -> list[dict]:
     out: list[dict] = []
     seen: set[str] = set()
 
-    def add(part: str, char: str, pos: str, method: str, scheme: str = "http", sanitize: bool = False, second: str | None = None) -> None:
+    def add(part: str, char: str, pos: str, method: str, scheme: str = "http", sanitize: bool = False, second: str | None = None,
+            entry: str | None = None) -> None:
         if part in ASCII_ONLY_PARTS and "eacute" in (char, second):
             return
         value = build_value(char, pos, second)
-        key = digest([part, value, method, scheme, sanitize])
+        key = digest([part, value, method, scheme, sanitize] + ([entry] if entry else []))
         if key in seen:  # 'a' and the empty character give the same strings at several positions
             return
         seen.add(key)
         item = {"part": part, "char": char, "pos": pos, "method": method, "scheme": scheme, "sanitize": sanitize}
         if second:
             item["second"] = second
+        if entry:
+            item["entry"] = entry
         out.append(item)
 
     # 1. the full single-character product, sanitisation off, plain http
@@ -158,6 +193,29 @@ def items(tier: str, seed: int) -> list[dict]:
         add(part, "empty", "alone", "POST", sanitize=True)
     # 5. the command as the engine records it for failed checks (incl. checks that report on a case they derived)
     out.extend(dict(sc) for sc in ENGINE_SCENARIOS)
+    # --- review round 2 ---
+    # 6. the other methods: every part, a slice of the characters (thorough: all), alone
+    for part in [*PARTS, *EMPTY_PAYLOAD_PARTS]:
+        methods = EXTRA_BODY_METHODS if part in BODY_PARTS else EXTRA_METHODS
+        for char in (["empty"] if part in EMPTY_PAYLOAD_PARTS else [n for n, _ in CHARS] if tier == "thorough" else METHOD_SLICE_CHARS):
+            for method in methods:
+                add(part, char, "alone", method)
+    # 7. the other places the command is read from, for the round-1 parts
+    for part in [*PARTS, *EMPTY_PAYLOAD_PARTS]:
+        for pos in (POSITIONS if tier == "thorough" else ["alone"]):
+            for char in (["empty"] if part in EMPTY_PAYLOAD_PARTS else [n for n, _ in CHARS]):
+                add(part, char, pos, "POST", entry="failure_message")
+                if tier == "thorough" or char in BARE_SLICE_CHARS:
+                    add(part, char, pos, "POST", entry="bare")
+        add(part, "squote" if part not in EMPTY_PAYLOAD_PARTS else "empty", "alone", "POST", sanitize=True, entry="failure_message")
+    # 8. request shapes (two values at once in both writing orders, header names, payload types) x the place the command is read from
+    for shape in c09_extra.shapes(CHAR):
+        for entry in ENTRIES:
+            if entry == "bare" and shape.get("call"):
+                continue  # Case.as_curl_command() cannot know what was given to call()
+            out.append({"kind": "shape", **shape, "entry": entry, "scheme": "http", "sanitize": False})
+        if shape["dim"] == "header_name":
+            out.append({"kind": "shape", **shape, "entry": "response_headers", "scheme": "http", "sanitize": True})
     return out
 
 
@@ -271,14 +329,15 @@ def document() -> dict:
               {"name": "q", "in": "query", "schema": string}, {"name": "ck", "in": "cookie", "schema": string}]
     body = {"content": {"text/plain": {"schema": string}, "application/json": {"schema": string},
                         "application/x-www-form-urlencoded": {"schema": obj}, "multipart/form-data": {"schema": obj}}}
-    paths: dict[str, dict] = {"/c/{m}": {}, "/c/{m}/{p}": {}}
-    for method in ("get", "post", "put"):
+    paths: dict[str, dict] = {"/c/{m}": {}, "/c/{m}/{p}": {}, "/fail/{m}": {}, "/fail/{m}/{p}": {}}
+    for method in ("get", "post", "put", "delete", "patch", "head", "options", "trace"):
         op: dict[str, Any] = {"parameters": common, "responses": {"200": {"description": "OK"}}}
-        if method != "get":
+        if method in ("post", "put", "delete", "patch"):
             op["requestBody"] = body
-        paths["/c/{m}"][method] = op
-        paths["/c/{m}/{p}"][method] = {"parameters": [marker, {"name": "p", "in": "path", "required": True, "schema": string}],
-                                       "responses": {"200": {"description": "OK"}}}
+        for prefix in ("/c", "/fail"):  # the recording server answers 500 under /fail (a failing not_a_server_error check)
+            paths[prefix + "/{m}"][method] = op
+            paths[prefix + "/{m}/{p}"][method] = {"parameters": [marker, {"name": "p", "in": "path", "required": True, "schema": string}],
+                                                  "responses": {"200": {"description": "OK"}}}
     return {"openapi": "3.0.2", "info": {"title": "c09", "version": "1"}, "paths": paths}
 
 
@@ -407,7 +466,8 @@ def build_case(item: dict, marker: str) -> Any:
     value = build_value(item["char"], item["pos"], item.get("second"))
     schema = _W[item["scheme"], item["sanitize"]]
     kwargs: dict[str, Any] = {"path_parameters": {"m": marker}}
-    path = "/c/{m}"
+    prefix = "/fail" if item.get("entry") == "failure_message" else "/c"
+    path = prefix + "/{m}"
     if part == "header":
         kwargs["headers"] = {"X-T": value}
     elif part == "header_accept":
@@ -417,10 +477,10 @@ def build_case(item: dict, marker: str) -> Any:
     elif part == "query":
         kwargs["query"] = {"q": value}
     elif part == "path_raw":
-        path = "/c/{m}/{p}"
+        path = prefix + "/{m}/{p}"
         kwargs["path_parameters"]["p"] = value
     elif part == "path_gen":
-        path = "/c/{m}/{p}"
+        path = prefix + "/{m}/{p}"
         kwargs["path_parameters"]["p"] = quote_plus(value)  # the form in which generated cases carry path values
     elif part in EMPTY_PAYLOAD_PARTS:
         kind, payload = EMPTY_PAYLOAD_PARTS[part]
@@ -437,6 +497,40 @@ def build_case(item: dict, marker: str) -> Any:
     elif item["sanitize"]:
         kwargs["headers"]["Authorization"] = "Bearer s3cr3t"
     return schema[path][method].Case(**kwargs), value
+
+
+def _shape_body(spec: dict) -> Any:
+    kind, value = spec["t"], spec["v"]
+    if kind == "bytes":
+        return value.encode("utf-8")
+    if kind == "obj":
+        return {k: copy.deepcopy(v) for k, v in value}  # insertion order = the enumerated writing order
+    return copy.deepcopy(value)
+
+
+def build_shape_case(item: dict, marker: str) -> tuple[Any, dict[str, Any], frozenset, frozenset]:
+    """-> (case, kwargs for call(), names of headers somebody wrote down, names among them that only call() was given)."""
+    schema = _W[item["scheme"], item["sanitize"]]
+    spec, call = item["case"], item.get("call") or {}
+    kwargs: dict[str, Any] = {"path_parameters": {"m": marker}}
+    for container in ("headers", "cookies", "query"):
+        if container in spec:
+            kwargs[container] = {k: copy.deepcopy(v) for k, v in spec[container]}
+    if "body" in spec:
+        kwargs["body"] = _shape_body(spec["body"])
+    if "media_type" in spec:
+        kwargs["media_type"] = spec["media_type"]
+    call_kwargs: dict[str, Any] = {}
+    if "headers" in call:
+        call_kwargs["headers"] = {k: v for k, v in call["headers"]}
+    if "cookies" in call:
+        call_kwargs["cookies"] = {k: v for k, v in call["cookies"]}
+    if "auth" in call:
+        call_kwargs["auth"] = tuple(call["auth"])
+    in_case = frozenset(k.lower() for k, _ in spec.get("headers", []))
+    in_call = frozenset(k.lower() for k, _ in call.get("headers", []))
+    prefix = "/fail" if item["entry"] == "failure_message" else "/c"
+    return schema[prefix + "/{m}"][item["method"]].Case(**kwargs), call_kwargs, in_case | in_call, in_call - in_case
 
 
 def _port_free(text: Any, port: int) -> Any:
@@ -461,6 +555,16 @@ ENGINE_SCENARIOS = [
     {"kind": "engine", "auth": "set_query", "op": "sec"},
     {"kind": "engine", "auth": "none", "op": "fail"},
     {"kind": "engine", "auth": "header", "op": "fail"},
+    # review round 2: headers of the run configuration (`st run -H ...`) - a name of their own / a name requests also sets by default;
+    # a failing operation with a payload; the coverage phase; the stateful phase (its executor records the command on its own)
+    {"kind": "engine", "auth": "none", "op": "fail", "config_headers": [["X-U", "it's 1"], ["x-w", "2"]]},
+    {"kind": "engine", "auth": "none", "op": "fail", "config_headers": [["User-Agent", "c09/1 (x)"]]},
+    {"kind": "engine", "auth": "none", "op": "fail", "config_headers": [["accept", "text/x-c09"]]},
+    {"kind": "engine", "auth": "none", "op": "failpost"},
+    {"kind": "engine", "auth": "none", "op": "failpost", "phase": "coverage"},
+    {"kind": "engine", "auth": "none", "op": "fail", "phase": "coverage"},
+    {"kind": "engine", "auth": "none", "op": "chain", "phase": "stateful"},
+    {"kind": "engine", "auth": "header", "op": "chain", "phase": "stateful"},
 ]
 
 
@@ -477,8 +581,22 @@ def engine_document() -> dict:
             "/e/fail": {"get": {"parameters": [{"name": "q", "in": "query", "schema": {"type": "string", "enum": ["a b", "it's"]}},
                                                {"name": "X-T", "in": "header", "schema": {"type": "string", "enum": ["v 1"]}}],
                                 "responses": {"200": {"description": "OK"}}}},
+            "/e/failpost": {"post": {"parameters": [{"name": "q", "in": "query", "schema": {"type": "string", "enum": ["a&b"]}}],
+                                     "requestBody": {"required": True, "content": {"application/json": {"schema": {
+                                         "type": "object", "required": ["k"], "additionalProperties": False,
+                                         "properties": {"k": {"type": "string", "enum": ["it's", "a \"b\"", "@x"]}}}}}},
+                                     "responses": {"200": {"description": "OK"}}}},
+            # stateful: POST /e/mk answers 200; its link feeds GET /e/fail/{id} (500) from the REQUEST (the server sends no payload)
+            "/e/mk": {"post": {"security": [{"B": []}], "parameters": [{"name": "q", "in": "query", "required": True, "schema": {"type": "string", "enum": ["a b", "it's"]}}],
+                               "responses": {"200": {"description": "OK", "links": {"L": {"operationId": "getFail", "parameters": {"id": "$request.query.q"}}}}}}},
+            "/e/fail/{id}": {"get": {"operationId": "getFail",
+                                     "parameters": [{"name": "id", "in": "path", "required": True, "schema": {"type": "string", "enum": ["a b", "it's"]}}],
+                                     "responses": {"200": {"description": "OK"}}}},
         },
     }
+
+
+ENGINE_PATHS = {"sec": ["/e/sec"], "fail": ["/e/fail"], "failpost": ["/e/failpost"], "chain": ["/e/mk", "/e/fail/{id}"]}
 
 
 def check_engine_item(item: dict, tier: str) -> Result:
@@ -498,12 +616,15 @@ def check_engine_item(item: dict, tier: str) -> Result:
     server: _Server = _W["http"]
     port = server.port
     doc = engine_document()
-    keep = "/e/sec" if item["op"] == "sec" else "/e/fail"
-    doc["paths"] = {keep: doc["paths"][keep]}
+    doc["paths"] = {keep: doc["paths"][keep] for keep in ENGINE_PATHS[item["op"]]}
     schema = schemathesis.openapi.from_dict(doc).configure(base_url=f"http://127.0.0.1:{port}", output=OutputConfig(sanitize=False))
     headers = {"Authorization": "Bearer SECRET"} if item["auth"] == "header" else {}
+    headers.update({k: v for k, v in item.get("config_headers", [])})
+    configured = frozenset(k.lower() for k in headers)
+    phase = item.get("phase", "fuzzing")
     override = Override(query={"api_key": "QSECRET"}, headers={}, cookies={}, path_parameters={}) if item["auth"] == "set_query" else None
-    config = mc_engine.make_config(phases=["fuzzing"], max_examples=3, checks=[not_a_server_error, ignored_auth], headers=headers, override=override)
+    config = mc_engine.make_config(phases=[phase], max_examples=3, checks=[not_a_server_error, ignored_auth], headers=headers, override=override,
+                                   stateful_step_count=3 if phase == "stateful" else None)
     server.drain()
     events = list(from_schema(schema, config=config).execute())
     res.evaluations += 1
@@ -532,6 +653,10 @@ def check_engine_item(item: dict, tier: str) -> Result:
         seen.add((case_id, command))
         original = by_case_id.get(case_id)
         sig_base = {"part": "engine_code_sample", "check": name, "auth": item["auth"]}
+        if phase != "fuzzing":
+            sig_base["phase"] = phase
+        if item["op"] not in ("sec", "fail"):
+            sig_base["op"] = item["op"]
         detail = {"item": item, "case_id": case_id, "command": _port_free(command, port)}
         if original is None:
             res.violation({**sig_base, "lost": "original_request_of_failing_case_not_on_the_wire"}, detail)
@@ -546,17 +671,24 @@ def check_engine_item(item: dict, tier: str) -> Result:
         reproduced = [r for r in server.drain() if not r.get("error")]
         res.nontriv([item, name, detail["command"]])
         res.count(f"engine_code_samples_judged:{name}")
+        res.count(f"engine_code_samples_judged_in_phase:{phase}")
         if len(reproduced) != 1:
             res.violation({**sig_base, "lost": "request", "requests": len(reproduced), "curl_exit": proc.returncode}, detail)
             continue
         res.transitions += 1
-        differences = compare(original, reproduced[0], sanitize=False)
+        differences = compare(original, reproduced[0], sanitize=False, explicit=configured)
         if not differences:
             res.outcomes.add("engine_reproduced")
+            res.count(f"engine_reproduced_in_phase:{phase}")
             continue
         res.outcomes.add("engine_differs")
         for lost, facts, info in differences:
-            res.violation({**sig_base, "lost": lost, **facts},
+            sig = {**sig_base, "lost": lost, **facts}
+            if lost == "header" and facts.get("header") in configured:
+                # the header was written down in the run configuration, not by the case
+                sig["given_to_call_only"] = True
+                sig["name_is_a_default_of_requests"] = facts["header"] in {n.lower() for n in c09_extra.REQUESTS_DEFAULT_NAMES}
+            res.violation(sig,
                           detail | {"difference": _port_free(info, port), "original": _wire(original, port), "reproduced": _wire(reproduced[0], port)})
     return res
 
@@ -568,28 +700,62 @@ def check_item(item: dict, tier: str) -> Result:
     res = Result()
     server: _Server = _W[item["scheme"]]
     port = server.port
-    marker = "k" + digest([item.get(k) for k in ("part", "char", "second", "pos", "method", "scheme", "sanitize")])
-    case, value = build_case(item, marker)
-    value_leads = value.startswith(CHAR[item["char"]]) if item["char"] != "empty" else True
-    sig_base = {"part": item["part"], "char": item["char"], "leading": value_leads}
+    entry = item.get("entry", "response_headers")
     explicit: frozenset = frozenset()
-    if item["part"] in ("header", "header_accept"):
-        sig_base["part"] = "header"
-        sig_base["name"] = "Accept" if item["part"] == "header_accept" else "X-T"
-        explicit = frozenset([sig_base["name"].lower()])
-    if item.get("second"):
-        sig_base["second"] = item["second"]
+    outside_case: frozenset = frozenset()  # header names that were given to call() only
+    call_kwargs: dict[str, Any] = {}
+    if item.get("kind") == "shape":
+        marker = "k" + digest([item["shape"], entry, item["scheme"], item["sanitize"]])
+        case, call_kwargs, explicit, outside_case = build_shape_case(item, marker)
+        # the writing order stays in the detail (it is part of the shape's name): one defect is not one signature per order
+        sig_base: dict[str, Any] = {"part": "shape", "dim": item["dim"], **{k: v for k, v in item["facts"].items() if k != "order"}}
+        detail: dict[str, Any] = {"shape": item["shape"], "case": item["case"], "call": item.get("call"), "method": item["method"],
+                                  "scheme": item["scheme"], "sanitize": item["sanitize"]}
+        label = f"shape:{item['dim']}"
+        distinct = [item["shape"], entry, item["scheme"], item["sanitize"]]
+        special = True
+    else:
+        marker = "k" + digest([item.get(k) for k in ("part", "char", "second", "pos", "method", "scheme", "sanitize")] + ([entry] if "entry" in item else []))
+        case, value = build_case(item, marker)
+        value_leads = value.startswith(CHAR[item["char"]]) if item["char"] != "empty" else True
+        sig_base = {"part": item["part"], "char": item["char"], "leading": value_leads}
+        if item["part"] in ("header", "header_accept"):
+            sig_base["part"] = "header"
+            sig_base["name"] = "Accept" if item["part"] == "header_accept" else "X-T"
+            explicit = frozenset([sig_base["name"].lower()])
+        if item.get("second"):
+            sig_base["second"] = item["second"]
+        if item["method"] in EXTRA_METHODS:
+            sig_base["method"] = item["method"]
+        detail = {"value": value, "method": item["method"], "pos": item["pos"], "scheme": item["scheme"], "sanitize": item["sanitize"]}
+        label = item["part"]
+        distinct = [item["part"], value, item["method"], item["scheme"], item["sanitize"]] + ([entry] if "entry" in item else [])
+        special = item["char"] not in ("a", "empty")
     if item["scheme"] != "http":
         sig_base["scheme"] = item["scheme"]
     if item["sanitize"]:
         sig_base["sanitize"] = True
-    detail: dict[str, Any] = {"value": value, "method": item["method"], "pos": item["pos"], "scheme": item["scheme"], "sanitize": item["sanitize"]}
+    if entry != "response_headers":
+        sig_base["entry"] = entry
+        detail["entry"] = entry
     res.states += 1
     server.drain()
     # (1) the original request, sent by Schemathesis
-    call_kwargs = {"verify": False} if item["scheme"] == "https" else {}
+    if item["scheme"] == "https":
+        call_kwargs["verify"] = False
+    failure_text: str | None = None
     try:
-        response = case.call(**call_kwargs)
+        if entry == "failure_message":
+            from schemathesis.checks import not_a_server_error
+            from schemathesis.core.failures import FailureGroup
+
+            try:
+                case.call_and_validate(checks=[not_a_server_error], **call_kwargs)
+            except FailureGroup as group:
+                failure_text = group.message
+            response = None
+        else:
+            response = case.call(**call_kwargs)
     except Exception as exc:  # noqa: BLE001 - nothing was sent: there is no request to reproduce
         res.evaluations += 1
         res.outcomes.add("original_unsendable")
@@ -612,13 +778,24 @@ def check_item(item: dict, tier: str) -> Result:
         res.count("original_has_folded_header")
         return res
     # (2) the command exactly as Schemathesis prints it for this request
-    try:
-        command = case.as_curl_command(headers=dict(response.request.headers), verify=response.verify)
-    except Exception as exc:  # noqa: BLE001
-        res.outcomes.add("no_command")
-        res.traces += 1
-        res.violation({**sig_base, "lost": "command", "error": type(exc).__name__}, detail | {"error": repr(exc)[:300]})
-        return res
+    if entry == "failure_message":
+        # the harness' server answered 500 and not_a_server_error was the check: a failure with its "Reproduce with" block is due
+        if failure_text is None or REPRODUCE_MARKER not in failure_text:
+            res.oracle_errors.append({"error": "call_and_validate on a 500 response raised no FailureGroup with a 'Reproduce with' block",
+                                      "item": item, "message": (failure_text or "")[-400:]})
+            return res
+        command = failure_text[failure_text.index(REPRODUCE_MARKER) + len(REPRODUCE_MARKER):]
+    else:
+        try:
+            if entry == "bare":
+                command = case.as_curl_command()
+            else:
+                command = case.as_curl_command(headers=dict(response.request.headers), verify=response.verify)
+        except Exception as exc:  # noqa: BLE001
+            res.outcomes.add("no_command")
+            res.traces += 1
+            res.violation({**sig_base, "lost": "command", "error": type(exc).__name__}, detail | {"error": repr(exc)[:300]})
+            return res
     res.evaluations += 1
     detail["command"] = _port_free(command, port)
     detail["original"] = _wire(original, port)
@@ -639,7 +816,7 @@ def check_item(item: dict, tier: str) -> Result:
         if marker.encode() not in r["line"]:
             res.oracle_errors.append({"error": "a recording without this case's marker", "item": item, "line": repr(r["line"])})
             return res
-    res.nontriv([item["part"], value, item["method"], item["scheme"], item["sanitize"]])
+    res.nontriv(distinct)
     if len(reproduced) == 0:
         res.outcomes.add("no_request_reproduced")
         res.violation({**sig_base, "lost": "request", "curl_exit": proc.returncode}, detail)
@@ -653,12 +830,14 @@ def check_item(item: dict, tier: str) -> Result:
     differences = compare(original, reproduced[0], sanitize=item["sanitize"], explicit=explicit)
     if not differences:
         res.outcomes.add("reproduced")
-        res.count(f"reproduced:{item['part']}")
+        res.count(f"reproduced:{label}")
+        res.count(f"reproduced_entry:{entry}")
+        res.count(f"reproduced_method:{item['method']}")
         if item["scheme"] == "https":
             res.count("reproduced_over_https")
         if item["sanitize"]:
             res.count("reproduced_with_sanitisation_on")
-        if item["char"] not in ("a", "empty"):
+        if special:
             res.count("reproduced_special_character")
         if len(res.samples) < 2:
             res.samples.append({"item": item, "command": detail["command"], "wire": detail["original"]["line"]})
@@ -669,7 +848,12 @@ def check_item(item: dict, tier: str) -> Result:
         sig = {**sig_base, "lost": lost, **facts}
         if facts.get("how") == "multipart_boundary_mismatch":
             # the fact compares boundary tokens only: it does not depend on the enumerated value
-            sig = {k: v for k, v in sig.items() if k not in ("char", "leading", "second")}
+            sig = {k: v for k, v in sig.items() if k not in ("char", "leading", "second", "method")}
+        if lost == "header" and facts.get("header") in outside_case:
+            # the header was written down by the caller of call(), not by the case
+            # (one signature per header name: the spelling, the entry point and the sanitiser play no role in this fact)
+            sig = {"part": "shape", "dim": item["dim"], "lost": lost, **facts, "given_to_call_only": True,
+                   "name_is_a_default_of_requests": facts["header"] in {n.lower() for n in c09_extra.REQUESTS_DEFAULT_NAMES}}
         res.violation(sig, detail | {"difference": _port_free(info, port)})
     return res
 
@@ -688,6 +872,19 @@ def vacuity(total: Result, tier: str) -> list[str]:
         out.append("no case was reproduced with sanitisation on")
     if c.get("reproduced_special_character", 0) == 0:
         out.append("no case with a special character was reproduced")
+    # review round 2: every added dimension must have decided something
+    for dim in ("pair", "header_name", "body_shape"):
+        if c.get(f"reproduced:shape:{dim}", 0) == 0:
+            out.append(f"no request shape of dimension {dim} was reproduced faithfully")
+    for entry in ENTRIES:
+        if c.get(f"reproduced_entry:{entry}", 0) == 0:
+            out.append(f"no command read from {entry} was reproduced faithfully")
+    for method in ["GET", "POST", "PUT", *EXTRA_METHODS]:
+        if c.get(f"reproduced_method:{method}", 0) == 0:
+            out.append(f"no {method} request was reproduced faithfully")
+    for phase in ("fuzzing", "coverage", "stateful"):
+        if c.get(f"engine_reproduced_in_phase:{phase}", 0) == 0:
+            out.append(f"no command recorded by the engine in the {phase} phase was reproduced faithfully")
     if len(total.outcomes) < 2:
         out.append("a single outcome class")
     if total.traces < 0.5 * total.states:
